@@ -18,7 +18,11 @@ Inductive op :=
 | OWait (c o : N) (timed : bool) (out : option wres)      (* None: still blocked after 200 ms *)
 | OClose (c : N) (ret : bool)                             (* Client.Close; false: still blocked after 200 ms *)
 | OCloseQ
-| OPanic (k : N).                                         (* an API call panicked (1 send 2 wait 3 close 4 reply 5 other) *)
+| OPanic (k : N)                                          (* an API call panicked (1 send 2 wait 3 close 4 reply 5 other) *)
+| ONewRaw (o t : N)                                       (* queue.NewMessage(0, topic, 0, nil) gave object o *)
+| OClosePanic (c : N)                                     (* Client.Close panicked: close of closed channel *)
+| OCloseQB                                                (* Queue.Close was called and is walking the topics *)
+| OCloseQE.                                               (* ... and has returned *)
 
 (** Calls that were blocked and returned as a consequence of a later call. *)
 Inductive comp := CSend (p : N) (r : sres) | CClose (c : N).
@@ -35,6 +39,7 @@ Fixpoint own_reply (cur : list (N * N)) (ops : list op) : bool :=
   match ops with
   | [] => true
   | ONew o _ i :: tl => own_reply (aset o i cur) tl
+  | ONewRaw o _ :: tl => own_reply (aset o 0 cur) tl
   | OWait _ o _ (Some (WGot r)) :: tl => reply_names r (aget 0 o cur) && own_reply cur tl
   | _ :: tl => own_reply cur tl
   end.
@@ -48,38 +53,181 @@ Fixpoint recv_ids (ops : list op) : list N :=
   end.
 Definition at_most_once (ops : list op) : bool := nodupN (recv_ids ops).
 
-(** *** clause 3: after Client.Close / Queue.Close returned, new sends fail and new waits return *)
+(** *** clause 3: after Client.Close / Queue.Close returned, new sends fail and new waits return;
+    a closed subscriber's topics do not accept requests any more (a send to them fails, a wait
+    on them returns).
+    [lastonly]: count only the topic of a closed client's last Sub as closed (signature of
+    finding 3).  [skiplate]: do not ask waits on topics first named after Queue.Close was called
+    to return (signature of finding 6). *)
 Definition comps_closed (cs : list comp) : list N :=
   flat_map (fun x => match x with CClose c => [c] | _ => [] end) cs.
 
-Fixpoint after_close (closed : list N) (qclosed : bool) (ops : list (op * list comp)) : bool :=
+Record acs := mkAcs {
+  a_closed : list N;      (* clients whose Close has returned *)
+  a_closing : list N;     (* clients whose Close has been called *)
+  a_q : bool;             (* Queue.Close has returned *)
+  a_qb : bool;            (* Queue.Close has been called *)
+  a_subs : list (N * N);  (* effective subscriptions (client, topic), newest first *)
+  a_dead : list N;        (* topics of closed subscribers *)
+  a_known : list N;       (* topics that existed when Queue.Close was called *)
+  a_otop : list (N * N)   (* object -> topic *)
+}.
+Definition acs0 (known : list N) : acs := mkAcs [] [] false false [] [] known [].
+
+Definition topics_of (lastonly : bool) (c : N) (subs : list (N * N)) : list N :=
+  let l := map snd (filter (fun ct => fst ct =? c) subs) in
+  if lastonly then firstn 1 l else l.
+
+Definition acs_top (a : acs) (ob : N) : N := aget 0 ob (a_otop a).
+
+Definition acs_ok (skiplate : bool) (a : acs) (o : op) : bool :=
+  match o with
+  | OSend _ c ob _ _ out =>
+      if a_q a || memN c (a_closed a) || memN (acs_top a ob) (a_dead a)
+      then match out with Some r => is_err r | None => false end else true
+  | OWait c ob _ out =>
+      let t := acs_top a ob in
+      let exempt := skiplate && a_q a && negb (memN c (a_closed a)) && negb (memN t (a_dead a))
+                    && negb (memN t (a_known a)) in
+      if (a_q a || memN c (a_closed a) || memN t (a_dead a)) && negb exempt
+      then match out with Some _ => true | None => false end else true
+  | _ => true
+  end.
+
+Definition acs_next (lastonly : bool) (a : acs) (x : op * list comp) : acs :=
+  let '(o, cs) := x in
+  let know t l := if a_qb a then l else t :: l in
+  let newly := comps_closed cs ++ match o with OClose c true => [c] | _ => [] end in
+  mkAcs (newly ++ a_closed a)
+        (match o with OClose c _ => c :: a_closing a | _ => a_closing a end)
+        (match o with OCloseQ | OCloseQE => true | _ => a_q a end)
+        (match o with OCloseQ | OCloseQB => true | _ => a_qb a end)
+        (match o with
+         | OSub c t => if memN c (a_closing a) then a_subs a else (c, t) :: a_subs a
+         | _ => a_subs a
+         end)
+        (flat_map (fun c => topics_of lastonly c (a_subs a)) newly ++ a_dead a)
+        (match o with
+         | OSub c t => if memN c (a_closing a) then a_known a else know t (a_known a)
+         | OSend _ c ob _ _ out =>
+             match out with Some SErrClient => a_known a | _ => know (acs_top a ob) (a_known a) end
+         | OWait _ ob _ _ => know (acs_top a ob) (a_known a)
+         | OFill _ t _ _ _ => know t (a_known a)
+         | _ => a_known a
+         end)
+        (match o with ONew ob t _ | ONewRaw ob t => aset ob t (a_otop a) | _ => a_otop a end).
+
+Fixpoint after_close (lastonly skiplate : bool) (a : acs) (ops : list (op * list comp)) : bool :=
   match ops with
   | [] => true
-  | (o, cs) :: tl =>
-      let ok := match o with
-                | OSend _ c _ _ _ out =>
-                    if qclosed || memN c closed
-                    then match out with Some r => is_err r | None => false end else true
-                | OWait c _ _ out =>
-                    if qclosed || memN c closed
-                    then match out with Some _ => true | None => false end else true
-                | _ => true
-                end in
-      let closed' := match o with OClose c true => c :: closed | _ => closed end in
-      let q' := match o with OCloseQ => true | _ => qclosed end in
-      ok && after_close (comps_closed cs ++ closed') q' tl
+  | x :: tl => acs_ok skiplate a (fst x) && after_close lastonly skiplate (acs_next lastonly a x) tl
   end.
+
+(* the topics of the sends that parked, and the topics known when Queue.Close was called *)
+Fixpoint parked_topics (a : acs) (ops : list (op * list comp)) : list (N * N) :=
+  match ops with
+  | [] => []
+  | x :: tl =>
+      match fst x with
+      | OSend p _ ob _ _ None => [(p, acs_top a ob)]
+      | _ => []
+      end ++ parked_topics (acs_next false a x) tl
+  end.
+Definition known_at_close (a : acs) (ops : list (op * list comp)) : list N :=
+  a_known (fold_left (acs_next false) ops a).
 
 (** *** clause 4: once the queue is closed no send stays blocked for ever
     ([still]: the sends that were still blocked 3 s after the last call) *)
 Definition queue_closed_at_end (ops : list op) : bool :=
-  existsb (fun o => match o with OCloseQ => true | _ => false end) ops.
+  existsb (fun o => match o with OCloseQ | OCloseQE => true | _ => false end) ops.
 Definition no_block_forever (ops : list op) (still : list N) : bool :=
   if queue_closed_at_end ops then match still with [] => true | _ => false end else true.
+(* signature of finding 6: every send still parked is on a topic first named after Queue.Close was called *)
+Definition only_late_parked (known : list N) (ptop : list (N * N)) (still : list N) : bool :=
+  forallb (fun p => match find (fun x => fst x =? p) ptop with
+                    | Some (_, t) => negb (memN t known)
+                    | None => false
+                    end) still.
 
 (** *** no call crashes *)
 Definition no_panic (ops : list op) : bool :=
-  forallb (fun o => match o with OPanic _ => false | _ => true end) ops.
+  forallb (fun o => match o with OPanic _ | OClosePanic _ => false | _ => true end) ops.
+
+(* signature of finding 4: every crash is a Client.Close that started while another Close of
+   the same client had been called and had not returned *)
+Fixpoint only_overlap_panics (inprog : list N) (ops : list (op * list comp)) : bool :=
+  match ops with
+  | [] => true
+  | (o, cs) :: tl =>
+      let ok := match o with OPanic _ => false | OClosePanic c => memN c inprog | _ => true end in
+      let inprog1 := match o with OClose c false => c :: inprog | _ => inprog end in
+      ok && only_overlap_panics (filter (fun c => negb (memN c (comps_closed cs))) inprog1) tl
+  end.
+
+(** *** clause 5: no request is silently lost.  While nothing has been closed: when a subscriber
+    finds its Recv channel empty (everything at rest), every message accepted (send returned
+    nil) for a topic it is the only subscriber of has been read from Recv.
+    [skipraw]: leave out topics that were sent a sentinel look-alike (signature of finding 5). *)
+Record nls := mkNls {
+  n_off : bool;             (* a close was called: the clause is not evaluated any more *)
+  n_subs : list (N * N);
+  n_sent : list (N * N);    (* topic -> messages accepted *)
+  n_got : list (N * N);     (* topic -> messages read from Recv *)
+  n_rawt : list N;          (* topics that accepted a sentinel look-alike *)
+  n_otop : list (N * N);
+  n_raw : list (N * bool);  (* object is a sentinel look-alike *)
+  n_pend : list (N * (N * bool))   (* parked send -> topic, look-alike *)
+}.
+Definition nls0 : nls := mkNls false [] [] [] [] [] [] [].
+
+Definition bump (t n : N) (m : list (N * N)) : list (N * N) := aset t (aget 0 t m + n) m.
+
+Fixpoint no_lost (skipraw : bool) (a : nls) (ops : list (op * list comp)) : bool :=
+  match ops with
+  | [] => true
+  | (o, cs) :: tl =>
+      let top ob := aget 0 ob (n_otop a) in
+      let ok := match o with
+                | ORecv c None =>
+                    n_off a ||
+                    forallb (fun ct =>
+                               negb (fst ct =? c)
+                               || negb (N.of_nat (length (filter (fun x => snd x =? snd ct) (n_subs a))) =? 1)
+                               || (skipraw && memN (snd ct) (n_rawt a))
+                               || (aget 0 (snd ct) (n_sent a) =? aget 0 (snd ct) (n_got a))) (n_subs a)
+                | _ => true
+                end in
+      (* the call itself *)
+      let sent1 := match o with
+                   | OSend _ _ ob _ _ (Some SOk) => bump (top ob) 1 (n_sent a)
+                   | OFill _ t _ _ n => bump t n (n_sent a)
+                   | _ => n_sent a
+                   end in
+      let rawt1 := match o with
+                   | OSend _ _ ob _ _ (Some SOk) => if aget false ob (n_raw a) then top ob :: n_rawt a else n_rawt a
+                   | _ => n_rawt a
+                   end in
+      let pend1 := match o with
+                   | OSend p _ ob _ _ None => (p, (top ob, aget false ob (n_raw a))) :: n_pend a
+                   | _ => n_pend a
+                   end in
+      (* parked sends that returned nil afterwards *)
+      let done := flat_map (fun x => match x with CSend p SOk => [aget (0, false) p pend1] | _ => [] end) cs in
+      let sent2 := fold_left (fun m tr => bump (fst tr) 1 m) done sent1 in
+      let rawt2 := flat_map (fun tr : N * bool => if snd tr then [fst tr] else []) done ++ rawt1 in
+      let a1 := mkNls (match o with
+                       | OClose _ _ | OCloseQ | OCloseQB | OCloseQE | OClosePanic _ | OPanic _ => true
+                       | _ => n_off a
+                       end)
+                      (match o with OSub c t => (c, t) :: n_subs a | _ => n_subs a end)
+                      sent2
+                      (match o with ORecv _ (Some (Some (ob, _))) => bump (top ob) 1 (n_got a) | _ => n_got a end)
+                      rawt2
+                      (match o with ONew ob t _ | ONewRaw ob t => aset ob t (n_otop a) | _ => n_otop a end)
+                      (match o with ONew ob _ _ => aset ob false (n_raw a) | ONewRaw ob _ => aset ob true (n_raw a) | _ => n_raw a end)
+                      pend1 in
+      ok && no_lost skipraw a1 tl
+  end.
 
 (** *** the client discipline under which clauses 1 and 2 are promised
     (FreeMessage's contract: "the context must no longer reference the message"):
@@ -90,6 +238,7 @@ Fixpoint disciplined (stt : list (N * N)) (ops : list op) : bool :=
   match ops with
   | [] => true
   | ONew o _ _ :: tl => disciplined (aset o 1 stt) tl
+  | ONewRaw o _ :: tl => disciplined (aset o 1 stt) tl
   | OFree o :: tl =>
       let x := aget 0 o stt in ((x =? 1) || (x =? 3)) && disciplined (aset o 0 stt) tl
   | OSend _ _ o _ _ out :: tl =>
